@@ -1403,28 +1403,42 @@ fn curves(_k: &Kept, e: &mut BTreeMap<String, Entry>) {
         r *= 1.3;
     }
     e.insert("arc_subpoint_cap".into(), match last_ok {
-        Some(r0) if r < 1e9 => {
-            let mut counts: Vec<usize> = vec![];
-            let mut failed_after = false;
-            let mut phi = 5.0f64;
-            while phi < 6.25 {
-                match big_arc(r0, phi) {
-                    Some(n) => {
-                        if failed_after {
-                            // success after a failure: not monotone
-                            counts.clear();
+        Some(r_ok) if r < 1e9 => {
+            // several radii: the rounding of the implementation's f32 arithmetic can make the count
+            // jump right at the give-up of one sweep; a clean sweep ends at cap - 1
+            let mut ends: Vec<usize> = vec![];
+            let mut notes = vec![];
+            for scale in [1.0f64, 0.97, 0.94, 0.91, 0.88] {
+                let r0 = r_ok * scale;
+                let mut counts: Vec<usize> = vec![];
+                let mut gave_up = false;
+                let mut clean = true;
+                let mut phi = 5.0f64;
+                while phi < 6.25 {
+                    match big_arc(r0, phi) {
+                        Some(n) if gave_up => {
+                            notes.push(format!("R = {r0}: an arc of {n} points after a give-up"));
+                            clean = false;
                             break;
                         }
-                        counts.push(n);
+                        Some(n) => counts.push(n),
+                        None => gave_up = true,
                     }
-                    None => failed_after = true,
+                    phi += 0.0005;
                 }
-                phi += 0.0005;
+                let tail = &counts[counts.len().saturating_sub(40)..];
+                let steps_ok = tail.len() == 40 && tail.windows(2).all(|w| w[1] >= w[0] && w[1] - w[0] <= 1);
+                let is_max = counts.iter().max() == counts.last();
+                if clean && gave_up && steps_ok && is_max {
+                    ends.push(*counts.last().unwrap());
+                } else {
+                    notes.push(format!("R = {r0}: {} counts, last {:?}, gave up {gave_up}, last 40 steps by at most one {steps_ok}", counts.len(), counts.last()));
+                }
             }
-            let steps_ok = counts.windows(2).all(|w| w[1] >= w[0] && w[1] - w[0] <= 1);
-            match counts.last() {
-                Some(&n) if failed_after && steps_ok && counts.len() > 20 => val((n + 1).to_string(), h),
-                _ => none(format!("the sweep did not end in a clean give-up (R = {r0}, {} counts, last {:?}, steps by one: {steps_ok}, gave up: {failed_after})", counts.len(), counts.last())),
+            let top = ends.iter().max().copied();
+            match top {
+                Some(n) if ends.iter().filter(|x| **x == n).count() >= 2 => val((n + 1).to_string(), format!("{h}; five radii, the largest final count reached by {} of {} clean sweeps", ends.iter().filter(|x| **x == n).count(), ends.len())),
+                _ => none(format!("no two sweeps end cleanly at the same largest count: ends {ends:?}; {notes:?}")),
             }
         }
         _ => none("no radius up to 1e9 makes the arc construction give up"),
@@ -1484,13 +1498,48 @@ fn lines_of(data: &[u8], chunk: usize) -> Option<(usize, Vec<String>)> {
 
 fn reader(_k: &Kept, e: &mut BTreeMap<String, Entry>) {
     // ---- from_bom, exhaustively over an alphabet of 7 bytes and lengths 0..4
-    let alpha = [0x00u8, 0xEF, 0xBB, 0xBF, 0xFE, 0xFF, 0x41];
+    // the alphabet: seven fixed bytes, plus every byte that matters in some position of a 3-byte
+    // string (found by a scan of all 256^3 strings, so that a changed mark byte is seen as well)
+    let mut alpha: Vec<u8> = vec![0x00u8, 0xEF, 0xBB, 0xBF, 0xFE, 0xFF, 0x41];
+    let found: Vec<u8> = guarded(|| {
+        let dflt = verif_hooks::encoding_from_bom(&[]);
+        let mut out: Vec<u8> = vec![];
+        for b0 in 0..=255u8 {
+            let mut hit1: Vec<u8> = vec![];
+            let mut hits2: Vec<(u8, Vec<u8>)> = vec![];
+            for b1 in 0..=255u8 {
+                let h2: Vec<u8> = (0..=255u8).filter(|b2| verif_hooks::encoding_from_bom(&[b0, b1, *b2]) != dflt).collect();
+                if !h2.is_empty() {
+                    hit1.push(b1);
+                    hits2.push((b1, h2));
+                }
+            }
+            if hit1.is_empty() {
+                continue;
+            }
+            out.push(b0);
+            if hit1.len() < 256 {
+                out.extend(hit1.iter());
+                for (_, h2) in &hits2 {
+                    if h2.len() < 256 {
+                        out.extend(h2.iter());
+                    }
+                }
+            }
+        }
+        out
+    }).unwrap_or_default();
+    for b in found {
+        if !alpha.contains(&b) && alpha.len() < 12 {
+            alpha.push(b);
+        }
+    }
     let mut probes: Vec<Vec<u8>> = vec![vec![]];
     let mut level: Vec<Vec<u8>> = vec![vec![]];
     for _ in 0..4 {
         let mut next = vec![];
         for p in &level {
-            for a in alpha {
+            for &a in &alpha {
                 let mut q = p.clone();
                 q.push(a);
                 next.push(q);
@@ -1500,13 +1549,14 @@ fn reader(_k: &Kept, e: &mut BTreeMap<String, Entry>) {
         level = next;
     }
     let res: BTreeMap<Vec<u8>, (u8, usize)> = probes.iter().filter_map(|p| guarded(|| verif_hooks::encoding_from_bom(p)).ok().map(|r| (p.clone(), r))).collect();
-    let h = format!("encoding_from_bom on all {} byte strings of length 0..4 over {{00, EF, BB, BF, FE, FF, 41}}: rows = the shortest prefixes whose every extension gives one and the same non-default answer (longest first, then by descending bytes), then the default row", probes.len());
-    let entry = (|| -> Result<String, String> {
+    let h = format!("encoding_from_bom on all {} byte strings of length 0..4 over the bytes {:02x?} (seven fixed ones and every byte that matters in some position, by a scan of all 256^3 three-byte strings): rows = the shortest prefixes whose every extension gives one and the same non-default answer (longest first, then by descending bytes), then the default row", probes.len(), alpha);
+    type Rows = Vec<(Vec<u8>, (u8, usize))>;
+    let table = (|| -> Result<(Rows, (u8, usize)), String> {
         if res.len() != probes.len() {
             return Err("a probe panicked".into());
         }
         let dflt = res[&vec![]];
-        let mut rows: Vec<(Vec<u8>, (u8, usize))> = vec![];
+        let mut rows: Rows = vec![];
         for p in &probes {
             let r = res[p];
             if r == dflt || rows.iter().any(|(q, _)| p.starts_with(q)) {
@@ -1524,64 +1574,101 @@ fn reader(_k: &Kept, e: &mut BTreeMap<String, Entry>) {
             }
         }
         rows.sort_by(|a, b| b.0.len().cmp(&a.0.len()).then(b.0.cmp(&a.0)));
-        let mut txt: Vec<String> = rows.iter().map(|(q, (en, n))| format!("([{}], {en}, {n})", q.iter().map(|b| b.to_string()).collect::<Vec<_>>().join("; "))).collect();
-        txt.push(format!("([], {}, {})", dflt.0, dflt.1));
-        Ok(format!("[{}]", txt.join("; ")))
+        Ok((rows, dflt))
     })();
-    e.insert("bom_table".into(), match entry { Ok(t) => val(t, h).unordered(), Err(x) => refuted(x, h) });
+    e.insert("bom_table".into(), match &table {
+        Ok((rows, dflt)) => {
+            let mut txt: Vec<String> = rows.iter().map(|(q, (en, n))| format!("([{}], {en}, {n})", q.iter().map(|b| b.to_string()).collect::<Vec<_>>().join("; "))).collect();
+            txt.push(format!("([], {}, {})", dflt.0, dflt.1));
+            val(format!("[{}]", txt.join("; ")), h).unordered()
+        }
+        Err(x) => refuted(x.clone(), h),
+    });
 
-    // ---- which index is which encoding: decode "A" under each BOM through the line decoder
-    let cases: [(&str, &[u8], &[u8]); 3] = [
-        ("Utf8", &[0xEF, 0xBB, 0xBF], &[0x41, 0xE4, 0xB8, 0x8A, 0x0A]),
-        ("Utf16BE", &[0xFE, 0xFF], &[0x00, 0x41, 0x4E, 0x0A, 0x00, 0x0A]),
-        ("Utf16LE", &[0xFF, 0xFE], &[0x41, 0x00, 0x0A, 0x4E, 0x0A, 0x00]),
-    ];
-    let mut names: BTreeMap<i64, String> = BTreeMap::new();
-    let mut ok = true;
-    let mut aligned = true;
-    for (nm, bom, body) in cases {
-        let idx = guarded(|| verif_hooks::encoding_from_bom(bom)).ok().map(|r| i64::from(r.0));
-        let mut data = bom.to_vec();
-        data.extend_from_slice(body);
-        let l = lines_of(&data, 4096).map(|x| x.1);
-        let one_line = l.as_deref() == Some(&["A\u{4e0a}".to_string()]);
-        if nm != "Utf8" && !one_line {
-            aligned = false;
+    // ---- which index is which encoding.  The byte-order marks used from here on are the ones just
+    // observed (a prefix that from_bom consumes entirely), so that these entries do not depend on
+    // the bytes of the table.
+    let enc_text = |name: &str, t: &str| -> Vec<u8> {
+        match name {
+            "Utf8" => t.as_bytes().to_vec(),
+            "Utf16BE" => t.encode_utf16().flat_map(|u| u.to_be_bytes()).collect(),
+            _ => t.encode_utf16().flat_map(|u| u.to_le_bytes()).collect(),
         }
-        // the text decoded with the encoding of that index (whatever the line splitting did)
-        let dec = idx.and_then(|i| guarded(|| verif_hooks::encoding_decode(i as u8, &body[..body.len() - if nm == "Utf8" { 1 } else { 2 }])).ok());
-        match idx {
-            Some(i) if dec.as_deref() == Some("A\u{4e0a}") && names.insert(i, nm.to_string()).is_none() => {}
-            _ => ok = false,
-        }
+    };
+    let (rows, dflt) = table.clone().unwrap_or((vec![], (0, 0)));
+    // (index, a stream prefix selecting it)
+    let mut selectors: Vec<(u8, Vec<u8>)> = rows.iter().filter(|(q, (_, n))| *n == q.len()).map(|(q, (i, _))| (*i, q.clone())).collect();
+    if dflt.1 == 0 {
+        selectors.push((dflt.0, vec![]));
     }
-    let h = "index returned by encoding_from_bom for the three BOMs, each confirmed by decoding `A` + U+4E0A written in that encoding (encoding_decode with that index); list positions = indices; the names are the harness's (the enum is private: a renamed variant cannot be seen, a reordered one can)";
-    e.insert("encoding_variants".into(), if ok && names.keys().cloned().collect::<Vec<_>>() == vec![0, 1, 2] {
-        val(coq_string_list(&names.into_values().collect::<Vec<_>>()), h)
+    let mut names: BTreeMap<i64, String> = BTreeMap::new();
+    let mut sel_of: BTreeMap<String, Vec<Vec<u8>>> = BTreeMap::new();
+    let mut ok = table.is_ok();
+    for (i, q) in &selectors {
+        // which of the three encodings reads `A` + U+4E0B + LF behind this prefix as one line
+        let fits: Vec<&str> = ["Utf8", "Utf16BE", "Utf16LE"].into_iter().filter(|nm| {
+            let mut data = q.clone();
+            data.extend(enc_text(nm, "A\u{4e0b}\n"));
+            lines_of(&data, 4096).map(|x| x.1).as_deref() == Some(&["A\u{4e0b}".to_string()])
+                && guarded(|| verif_hooks::encoding_decode(*i, &enc_text(nm, "A\u{4e0b}"))).ok().as_deref() == Some("A\u{4e0b}")
+        }).collect();
+        if fits.len() != 1 {
+            ok = false;
+            continue;
+        }
+        match names.insert(i64::from(*i), fits[0].to_string()) {
+            Some(old) if old != fits[0] => ok = false,
+            _ => {}
+        }
+        sel_of.entry(fits[0].to_string()).or_default().push(q.clone());
+    }
+    let h = "for every observed byte-order mark (and for no mark): the index encoding_from_bom returns, and which of UTF-8 / UTF-16BE / UTF-16LE reads `A` + U+4E0B + LF behind that mark as that one line through LineDecoder (confirmed by encoding_decode with the index); list positions = indices, all of 0..n-1 reached; the names are the harness's (the enum is private: a renamed variant cannot be seen, a reordered one can)";
+    let idxs: Vec<i64> = names.keys().cloned().collect();
+    e.insert("encoding_variants".into(), if ok && !idxs.is_empty() && idxs == (0..idxs.len() as i64).collect::<Vec<_>>() {
+        val(coq_string_list(&names.values().cloned().collect::<Vec<_>>()), h)
     } else {
         refuted(format!("{names:?}"), h)
     });
-    e.insert("read_line_unit_aligned".into(), val(if aligned { "true" } else { "false" },
-        "UTF-16BE and UTF-16LE streams (with BOM) holding `A`, U+4E0A (one of whose bytes is 0x0A) and a line feed, through LineDecoder: true iff both come out as the single line `A` + U+4E0A"));
+    let mut aligned = true;
+    let mut n16 = 0;
+    for nm in ["Utf16BE", "Utf16LE"] {
+        for q in sel_of.get(nm).cloned().unwrap_or_default() {
+            n16 += 1;
+            let mut data = q.clone();
+            data.extend(enc_text(nm, "A\u{4e0a}\u{0a41}\n\u{4e0a}"));
+            if lines_of(&data, 4096).map(|x| x.1).as_deref() != Some(&["A\u{4e0a}\u{0a41}".to_string(), "\u{4e0a}".to_string()]) {
+                aligned = false;
+            }
+        }
+    }
+    e.insert("read_line_unit_aligned".into(), if n16 >= 2 {
+        val(if aligned { "true" } else { "false" },
+            "UTF-16BE and UTF-16LE streams (behind the observed marks) holding `A`, U+4E0A, U+0A41 (characters one of whose bytes is 0x0A), a line feed and U+4E0A, through LineDecoder: true iff both come out as the two lines `A` U+4E0A U+0A41 and U+4E0A")
+    } else {
+        none("no byte-order mark selecting UTF-16BE and UTF-16LE was observed, so no UTF-16 stream can be fed to the line reader")
+    });
 
     // ---- read_bom
     let mut acc = true;
-    for (data, want) in [
-        (&[0xEFu8, 0xBB, 0xBF, 0x41, 0x0A][..], "A"),
-        (&[0xFF, 0xFE, 0x41, 0x00, 0x0A, 0x00][..], "A"),
-        (&[0xFE, 0xFF, 0x00, 0x41, 0x00, 0x0A][..], "A"),
-    ] {
-        for chunk in [1usize, 2] {
-            if lines_of(data, chunk).map(|x| x.1).as_deref() != Some(&[want.to_string()]) {
-                acc = false;
+    let mut nmarks = 0;
+    for (nm, qs) in &sel_of {
+        for q in qs.iter().filter(|q| !q.is_empty()) {
+            nmarks += 1;
+            let mut data = q.clone();
+            data.extend(enc_text(nm, "A\n"));
+            for chunk in [1usize, 2, 4096] {
+                if lines_of(&data, chunk).map(|x| x.1).as_deref() != Some(&["A".to_string()]) {
+                    acc = false;
+                }
             }
         }
-        if lines_of(data, 4096).map(|x| x.1).as_deref() != Some(&[want.to_string()]) {
-            acc = false;
-        }
     }
-    e.insert("read_bom_accumulates".into(), val(if acc { "true" } else { "false" },
-        "streams starting with each of the three BOMs handed to LineDecoder in chunks of 1, 2 and 4096 bytes: true iff the BOM is recognised (the first line is `A`) for every chunking"));
+    e.insert("read_bom_accumulates".into(), if nmarks > 0 {
+        val(if acc { "true" } else { "false" },
+            format!("streams starting with each of the {nmarks} observed byte-order marks handed to LineDecoder in chunks of 1, 2 and 4096 bytes: true iff the mark is recognised (the first line is `A`) for every chunking"))
+    } else {
+        none("no byte-order mark was observed")
+    });
     let body = b"ABCDEFGHIJKLMNOPQRSTUVWXYZ\n";
     let taken: Vec<Option<usize>> = [1usize, 2, 5, 4096].iter().map(|c| lines_of(body, *c).map(|x| x.0)).collect();
     let h = "bytes LineDecoder::new has consumed from a reader (26 letters and a line feed, no BOM) that hands out chunks of 1, 2, 5 and 4096 bytes: the same number for every chunking";
